@@ -164,12 +164,17 @@ Proof.
   rewrite Forall_forall in Hi. now apply Hi.
 Qed.
 
+Lemma nth_repeat_in {A} (x d : A) n : forall i, (i < n)%nat -> nth i (repeat x n) d = x.
+Proof.
+  induction n as [|n IH]; intros [|i] Hi; cbn [repeat nth]; try lia; [reflexivity|apply IH; lia].
+Qed.
+
 Lemma take_idx_repeat {A} (x d : A) idx n :
   Forall (fun i => (i < n)%nat) idx -> take_idx d idx (repeat x n) = repeat x (length idx).
 Proof.
   induction 1 as [|i idx Hi _ IH]; [reflexivity|].
   cbn [length repeat]. unfold take_idx in *. cbn [map]. rewrite IH. f_equal.
-  apply nth_repeat_lt || (clear IH; revert i Hi; induction n; intros [|i] Hi; cbn; try lia; auto; apply IHn; lia).
+  now apply nth_repeat_in.
 Qed.
 
 Lemma take_idx_indep {A} (d d' : A) idx l :
